@@ -116,7 +116,16 @@ def seq_ops(R, s, tier_random=False, idx=IDX, r=None):
         for j in idx:
             R.expect("%s[%d to %d]" % (S, i, j), rs.slice_(s, i, j), "slice:%s:start %s:end %s" % (k, cls(i, n), cls(j, n)), ("sl", S, i, j))
             R.expect("%s(%s, %d, %d)" % (fn, S, i, j), rs.slice_(s, i, j), "%s:start %s:end %s" % (fn, cls(i, n), cls(j, n)), (fn, S, i, j))
+            if not isstr:
+                # the run between the bounds is a value of its own: what is done to one result (an empty one included)
+                # shows neither in the sequence nor in the next result of the same or another slice
+                sl = rs.slice_(s, i, j)
+                R.expect("def l = %s; def r_ = l[%d to %d]; append(r_, 'E'); insert_at(r_, 0, 'F'); [l[%d to %d], sublist(l, %d, %d), ['q'][1 to 0], l, r_]" % (S, i, j, i, j, i, j),
+                         [sl, sl, [], s, ["F"] + sl + ["E"]], "slice-result-edited:start %s:end %s" % (cls(i, n), cls(j, n)), ("sl-ed", S, i, j))
         if not isstr:
+            sl = rs.slice_(s, i)
+            R.expect("def l = %s; def r_ = l[%d to *]; append(r_, 'E'); def q_ = sublist(l, %d); append(q_, 'G'); [l[%d to *], sublist(l, %d), l, r_, q_]" % (S, i, i, i, i),
+                     [sl, sl, s, sl + ["E"], sl + ["G"]], "slice-open-result-edited:" + cls(i, n), ("slo-ed", S, i))
             R.expect("def l = %s; insert_at(l, %d, 'X'); l" % (S, i), rs.insert_at(s, i, "X"), "insert_at:" + cls(i, n), ("ins", S, i))
             R.expect("insert_at(%s, %d, 'X')" % (S, i), rs.insert_at(s, i, "X"), "insert_at-result:" + cls(i, n), ("insr", S, i))
             newl, removed = rs.delete_at(s, i)
@@ -145,6 +154,8 @@ def seq_ops(R, s, tier_random=False, idx=IDX, r=None):
         R.expect("find_last(%s, %s)" % (S, P), w, "find_last:%s:%s" % (k, tag), ("findl", S, P))
         for st in idx:
             if st < 0:
+                # left open: strings hand a negative start to the host's rfind (find_last('cc', 'c', start = -2) is 0),
+                # lists answer -1; the statement fixes neither reading
                 continue
             w = rs.find(s, p, st)
             R.expect("find(%s, %s, start = %d)" % (S, P, st), w, "find-start:%s:%s" % (k, cls(st, n)), ("finds", S, P, st))
